@@ -85,11 +85,14 @@ theorem flat_heap (v : Variant) (hv : v.callCopies = true) :
               | .ok (.atom a) => ⟨p.1.h, p.1.st, p.1.src, p.2, .ev (.text a.text true)⟩
               | .ok (.list xs) => flat v n p.1.h p.1.st p.1.src (.ensure xs :: p.2)
               | .ok (.opaque _) => ⟨p.1.h, p.1.st, p.1.src, p.2, .err .unmodelled⟩
+              | .ok (.macro _) => ⟨p.1.h, p.1.st, p.1.src, p.2, .err .unmodelled⟩
+              | .ok (.gen0 m) => flat v n p.1.h p.1.st p.1.src (.macroNew m none :: p.2)
+              | .ok (.gen1 m a) => flat v n p.1.h p.1.st p.1.src (.macroNew m (some a) :: p.2)
             | .sub d b =>
               match readDirs p.1.h p.1.st.ph d with
               | none => ⟨p.1.h, p.1.st, p.1.src, p.2, .err .unmodelled⟩
               | some ds =>
-                match applyDirs p.1.st.ctx (if ds.isEmpty then .raw b 0 else .ref b 0) ds with
+                match applyDirs p.1.h p.1.st.ph p.1.st.ctx (if ds.isEmpty then .raw b 0 else .ref b 0) ds with
                 | .error er => ⟨p.1.h, p.1.st, p.1.src, p.2, .err er⟩
                 | .ok (c2, it2) => flat v n p.1.h { p.1.st with ctx := c2 } p.1.src (it2 :: p.2)).h = h := by
       intro p hp
@@ -108,6 +111,9 @@ theorem flat_heap (v : Variant) (hv : v.callCopies = true) :
           · exact hp
           · rw [ih]; exact hp
           · exact hp
+          · exact hp
+          · rw [ih]; exact hp
+          · rw [ih]; exact hp
         · split
           · exact hp
           · split
